@@ -325,6 +325,7 @@ impl Driver {
             "lattice" => d.n = q(300, 5000),
             "orders" => d.n = q(1200, 15000),
             "stages" => d.n = q(800, 20000),
+            "fallbacks" => d.n = q(500, 12000),
             other => panic!("unknown driver {}", other),
         }
         d
@@ -811,6 +812,52 @@ impl Driver {
                     run(base.with("icase", true), &tcs),
                     run(base.with("nostart", true).with("noend", true), &tcs),
                 ];
+                mk(tcs, runs)
+            }
+            // the self-check's second stage and the last-resort alternation (only reached when an anchor is disabled
+            // and overlapping shorthand classes make the automaton's expressions ambiguous for a leftmost-first
+            // search), combined with every other setting: about 8 % of these runs end in the plain alternation
+            "fallbacks" => {
+                let digits = ["0", "1", "7", "\u{663}"];
+                let words = ["x", "y", "_", "\u{e9}", "\u{1D7D7}", "Q", "\u{1F4A9}", "-", " "];
+                let mut letters: Vec<String> = vec![];
+                for _ in 0..2 {
+                    letters.push(digits[rng.gen_range(0..digits.len())].to_string());
+                    letters.push(words[rng.gen_range(0..words.len())].to_string());
+                }
+                letters.sort();
+                letters.dedup();
+                let mut tcs: Vec<String> = vec![];
+                let k = rng.gen_range(3..=5);
+                let mut guard = 0;
+                while tcs.len() < k && guard < 100 {
+                    guard += 1;
+                    let w: String = (0..rng.gen_range(1..=4)).map(|_| letters[rng.gen_range(0..letters.len())].clone()).collect();
+                    if !tcs.contains(&w) {
+                        tcs.push(w);
+                    }
+                }
+                tcs.sort();
+                let overlaps: [&[&str]; 6] = [&["digit", "word"], &["digit", "nonspace"], &["word", "nonspace"],
+                                              &["digit", "word", "nonspace"], &["space", "nondigit"], &["digit", "nondigit"]];
+                let mut cls = Cfg::default();
+                for f in overlaps[rng.gen_range(0..overlaps.len())] {
+                    cls = cls.with(f, true);
+                }
+                let open = if rng.gen_bool(0.5) { cls.with("noend", true) } else { cls.with("noend", true).with("nostart", true) };
+                let mut runs = vec![run(open.clone(), &tcs)];
+                for extra in ["rep", "icase", "verbose", "capture", "escape"] {
+                    if rng.gen_bool(0.5) {
+                        runs.push(run(open.with(extra, true), &tcs));
+                    }
+                }
+                if rng.gen_bool(0.3) {
+                    runs.push(run(open.with("escape", true).with("surr", true), &tcs));
+                }
+                if rng.gen_bool(0.3) {
+                    runs.push(run(open.with("rep", true).with("verbose", true).with("capture", true), &tcs));
+                }
+                runs.push(run(cls.clone(), &tcs));
                 mk(tcs, runs)
             }
             _ => None,
